@@ -122,5 +122,15 @@ CLAIMED.update({
             "contracts against a reference layout (pyvc + z3)", "DESIGN.md 3 (C16), 9"),
 })
 
+CLAIMED.update({
+    "C15": ("proof", "parse_connection_path / parse_cip_route are proved on constructed path strings -- symbolic host, symbolic TCP port numeral, "
+            "every separator an independent symbolic character from {/ \\ ,}, port given by any alias or number 1..14, link given as a symbolic "
+            "slot numeral or dotted quad -- to return the host, the port and a route whose encoding equals the reference route bytes computed "
+            "from the components (hence all spellings of one route give identical bytes); shapes: 0-2 hops in the quick tier, 3-4 in the "
+            "thorough tier, with and without the Logix/SLC shortcuts; strings outside the grammar (odd segment count, unknown port name, "
+            "link out of range or malformed, invalid TCP port) are proved to raise RequestError / DataError and never yield route bytes",
+            "contracts over constructed-term strings (pyvc + z3)", "DESIGN.md 3 (C15), 9"),
+})
+
 if __name__ == "__main__":
     main()
